@@ -45,9 +45,15 @@ inline rc::Gen<std::vector<uint8_t>> genSched(int maxLen, int maxChoice = 4) {
     };
     auto uniform = rc::gen::scale(maxLen / 100.0, rc::gen::container<std::vector<uint8_t>>(
                                                     rc::gen::map(rng(0, maxChoice), [](int x) { return (uint8_t)x; })));
+    // sparse schedule in which some of the non-default bytes also carry a spurious wake-up (bit 7; see vsched.cpp)
+    auto spurious = rc::gen::map(rc::gen::tuple(sparse(3), rng(0, 255)), [](const std::tuple<std::vector<uint8_t>, int> &t) {
+        std::vector<uint8_t> v = std::get<0>(t); unsigned x = (unsigned)std::get<1>(t) * 2654435761u;
+        for (auto &b : v) { x = x * 1103515245u + 12345u; if (b && ((x >> 16) & 3) == 0) b = (uint8_t)(0x80 | ((x >> 20) & 0x78) | (b & 7)); }
+        return v;
+    });
     return rc::gen::weightedOneOf<std::vector<uint8_t>>({
         {1, rc::gen::just(std::vector<uint8_t>{})},
-        {3, sparse(8)}, {4, sparse(4)}, {4, sparse(2)}, {3, uniform}});
+        {3, sparse(8)}, {4, sparse(4)}, {4, sparse(2)}, {3, uniform}, {2, spurious}});
 }
 
 inline rc::Gen<std::vector<int>> genHeader(std::vector<std::pair<int, int>> ranges) {
